@@ -23,6 +23,7 @@ from .values import (
     to_boolean,
     to_number,
     to_integer_or_infinity,
+    relative_index,
     to_string,
     js_typeof,
 )
@@ -1375,17 +1376,12 @@ class VM:
             return acc
 
         def splice_fn(*args):
-            start = int(to_number(args[0])) if args else 0
+            length = len(arr._elements)
+            start = relative_index(args[0], length) if args else 0
             delete_count = (
-                int(to_number(args[1])) if len(args) > 1 else len(arr._elements) - start
+                to_integer_or_infinity(args[1]) if len(args) > 1 else length - start
             )
             items = list(args[2:]) if len(args) > 2 else []
-
-            length = len(arr._elements)
-            if start < 0:
-                start = max(0, length + start)
-            else:
-                start = min(start, length)
 
             delete_count = max(0, min(delete_count, length - start))
 
@@ -1410,9 +1406,7 @@ class VM:
 
         def indexOf_fn(*args):
             search = args[0] if args else UNDEFINED
-            start = int(to_number(args[1])) if len(args) > 1 else 0
-            if start < 0:
-                start = max(0, len(arr._elements) + start)
+            start = relative_index(args[1], len(arr._elements)) if len(args) > 1 else 0
             for i in range(start, len(arr._elements)):
                 if vm._strict_equals(arr._elements[i], search):
                     return i
@@ -1420,10 +1414,11 @@ class VM:
 
         def lastIndexOf_fn(*args):
             search = args[0] if args else UNDEFINED
-            start = int(to_number(args[1])) if len(args) > 1 else len(arr._elements) - 1
+            length = len(arr._elements)
+            start = to_integer_or_infinity(args[1]) if len(args) > 1 else length - 1
             if start < 0:
-                start = len(arr._elements) + start
-            for i in range(min(start, len(arr._elements) - 1), -1, -1):
+                start = max(-1, length + start)
+            for i in range(min(start, length - 1), -1, -1):
                 if vm._strict_equals(arr._elements[i], search):
                     return i
             return -1
@@ -1479,12 +1474,13 @@ class VM:
             return result
 
         def slice_fn(*args):
-            start = int(to_number(args[0])) if args else 0
-            end = int(to_number(args[1])) if len(args) > 1 else len(arr._elements)
-            if start < 0:
-                start = max(0, len(arr._elements) + start)
-            if end < 0:
-                end = max(0, len(arr._elements) + end)
+            length = len(arr._elements)
+            start = relative_index(args[0], length) if args else 0
+            end = (
+                relative_index(args[1], length)
+                if len(args) > 1 and args[1] is not UNDEFINED
+                else length
+            )
             result = JSArray()
             result._elements = arr._elements[start:end]
             return result
@@ -1495,9 +1491,7 @@ class VM:
 
         def includes_fn(*args):
             search = args[0] if args else UNDEFINED
-            start = int(to_number(args[1])) if len(args) > 1 else 0
-            if start < 0:
-                start = max(0, len(arr._elements) + start)
+            start = relative_index(args[1], len(arr._elements)) if len(args) > 1 else 0
             for i in range(start, len(arr._elements)):
                 if vm._strict_equals(arr._elements[i], search):
                     return True
@@ -1757,18 +1751,13 @@ class VM:
             return separator.join(str(arr.get_index(i)) for i in range(arr.length))
 
         def subarray_fn(*args):
-            begin = int(to_number(args[0])) if len(args) > 0 else 0
-            end = int(to_number(args[1])) if len(args) > 1 else arr.length
-
-            # Handle negative indices
-            if begin < 0:
-                begin = max(0, arr.length + begin)
-            if end < 0:
-                end = max(0, arr.length + end)
-
-            # Clamp to bounds
-            begin = min(begin, arr.length)
-            end = min(end, arr.length)
+            # Relative indices, clamped to bounds
+            begin = relative_index(args[0], arr.length) if len(args) > 0 else 0
+            end = (
+                relative_index(args[1], arr.length)
+                if len(args) > 1 and args[1] is not UNDEFINED
+                else arr.length
+            )
 
             # Create new typed array of same type
             result = type(arr)(max(0, end - begin))
@@ -1782,7 +1771,7 @@ class VM:
         def set_fn(*args):
             # TypedArray.set(array, offset)
             source = args[0] if args else UNDEFINED
-            offset = int(to_number(args[1])) if len(args) > 1 else 0
+            offset = to_integer_or_infinity(args[1]) if len(args) > 1 else 0
 
             if isinstance(source, (JSArray, JSTypedArray)):
                 for i in range(source.length):
